@@ -139,6 +139,8 @@ void locale_case(std::string const &name, T v, locspec const &sp, std::locale co
   for (int k = 0; k < 3; ++k)
   {
     std::string const &s = outs[k];
+    // output_to_string_locale: "Convert an arbitrary type to a string, using a custom locale" through the type's
+    // operator<<: for an integer that is the locale's num_put text (digits grouped per numpunct)
     if (!want.empty())
       VRT_CHECK(s == want, name + ":output_not_in_locale", "%s(%s, %s) = \"%s\" want \"%s\"", outn[k], vt.c_str(), sp.name, s.c_str(),
                 want.c_str());
@@ -189,16 +191,18 @@ void locale_case(std::string const &name, T v, locspec const &sp, std::locale co
   }
 }
 
-// the plain forms use insert_extract_locale() == the global locale
-template <class T> void global_case(std::string const &name, T v, locspec const &gsp, std::string const &want)
+// The plain forms use fcppt::insert_extract_locale().  Its documentation says "This locale is the
+// C locale", its implementation returns std::locale{} (the global locale).  Only the round trip
+// of the plain pair is asserted (it holds under either reading); whether the text follows the
+// global locale is recorded as information.
+template <class T> void global_case(std::string const &name, T v, locspec const &gsp, std::string const &classic_text)
 {
   std::string const vt = val_text(v);
   std::string const outs[3] = {fcppt::output_to_std_string(v), fcppt::output_to_string<std::string>(v), fcppt::output_to_fcppt_string(v)};
   for (int k = 0; k < 3; ++k)
   {
-    if (!want.empty())
-      VRT_CHECK(outs[k] == want, name + ":global_output", "plain output form %d of %s under global %s = \"%s\" want \"%s\"", k, vt.c_str(),
-                gsp.name, outs[k].c_str(), want.c_str());
+    if (!classic_text.empty() && outs[k] != classic_text)
+      vrt::count("info:plain_output_follows_global_locale_not_C");
     fcppt::optional::object<T> const r = fcppt::extract_from_string<T>(outs[k]);
     VRT_CHECK(r.has_value() && r.get_unsafe() == v, name + ":global_roundtrip",
               "plain output of %s under global %s = \"%s\"; extract_from_string gives %s", vt.c_str(), gsp.name, outs[k].c_str(),
@@ -207,9 +211,8 @@ template <class T> void global_case(std::string const &name, T v, locspec const 
   std::wstring const wouts[2] = {fcppt::output_to_std_wstring(v), fcppt::output_to_string<std::wstring>(v)};
   for (int k = 0; k < 2; ++k)
   {
-    if (!want.empty())
-      VRT_CHECK(wouts[k] == wide(want), name + ":global_woutput", "plain wide output of %s under global %s = L\"%s\" want \"%s\"", vt.c_str(),
-                gsp.name, narrow_ascii(wouts[k]).c_str(), want.c_str());
+    if (!classic_text.empty() && wouts[k] != wide(classic_text))
+      vrt::count("info:plain_output_follows_global_locale_not_C");
     fcppt::optional::object<T> const r = fcppt::extract_from_string<T>(wouts[k]);
     VRT_CHECK(r.has_value() && r.get_unsafe() == v, name + ":global_wroundtrip",
               "plain wide output of %s under global %s = L\"%s\"; extract_from_string gives %s", vt.c_str(), gsp.name,
@@ -245,7 +248,7 @@ template <class T> void locale_ints(char const *tname, std::vector<T> const &dom
     vrt::nontrivial(x >= 1000 || x <= -1000);
     vrt::maybe_sample();
     locale_case<T>(name, v, specs[c.given], loc, ref_int_text(x, specs[c.given]));
-    global_case<T>(name, v, specs[c.global], ref_int_text(x, specs[c.global]));
+    global_case<T>(name, v, specs[c.global], dec(x));
   }
   std::locale::global(saved);
 }
